@@ -1,4 +1,6 @@
 import OxiVerif.Lemmas.C14
+import OxiVerif.Model.C14Old
+import OxiVerif.Model.C14Graph
 set_option linter.unusedSimpArgs false
 set_option linter.unusedVariables false
 /-!
@@ -11,11 +13,23 @@ counters (`Counter.count : Str → Nat` arbitrary, `Counter.additive` the flag t
 about itself); nothing is bounded.
 
 * `chunk` (sequential): the property holds in full — `C14_seq_*`.
-* `chunk_with_graph`: the full statement is FALSE of the current code (three kernel-checked
-  witnesses `C14_witness_graph_*`, reproduced on the real code by `corpus/C14/*.req`); what holds
-  is proved as `C14_graph_*_partial` under explicit hypotheses.
+* `chunk_with_graph`: budget, token estimate, heading and "nothing lost, nothing duplicated" hold
+  in full (`C14_graph_budget`, `C14_graph_no_loss`, … — the first two since the repairs of C14-F3
+  and C14-F1); the IN-ORDER statement is false of the current code with stale headings
+  (`C14_witness_graph_order`, finding C14-F2) and is proved under `NoStale`
+  (`C14_graph_partition_partial`).
 -/
 namespace OxiVerif.C14
+
+def md0 (id : Nat) (ph : Option Str) : Meta := ⟨id, 0, ph, [], none, false, false, false⟩
+def cfg100 : Config := ⟨100, true, true, false⟩
+
+/-- `[Title H1, P(H1), P(no heading), P("Gone")]` -/
+def witnessDropInput : List Elem :=
+  [⟨.title, .text ['H', '1'], md0 1 (some ['H', '1'])⟩,
+   ⟨.paragraph, .text ['o', 'n', 'e'], md0 2 (some ['H', '1'])⟩,
+   ⟨.paragraph, .text ['t', 'w', 'o'], md0 3 none⟩,
+   ⟨.paragraph, .text ['t', 'h', 'r', 'e', 'e'], md0 4 (some ['G', 'o', 'n', 'e'])⟩]
 
 /-! ## `HybridChunker::chunk` — full statements -/
 
@@ -210,11 +224,15 @@ theorem C14_seq_budget_wordproxy (cfg : Config) (els : List Elem) :
 
 /-! ## `HybridChunker::chunk_with_graph` -/
 
-/- FULL (false of the current code — see the three witnesses below):
+/- FULL (false of the current code — see `C14_witness_graph_order`):
    theorem C14_graph_partition (cfg cnt els) :
        Covers ((chunkWithGraph cfg cnt els).flatMap (·.elements)) els
-   theorem C14_graph_budget (cfg cnt els) (hadd : cnt.additive = true → AdditiveNl cnt.count) :
-       ∀ c ∈ chunkWithGraph cfg cnt els, c.oversized = false → cnt.count c.text ≤ cfg.maxTokens
+   What holds for ALL inputs is `C14_graph_no_loss` (every element exactly once; order within a
+   section and among the titles is input order, but a section's late children are emitted with the
+   section), and the in-order statement under `NoStale` (`C14_graph_partition_partial`).
+   The budget statement `C14_graph_budget` is full since the repair of C14-F3; nothing is dropped
+   since the repair of C14-F1 (old witnesses: `C14_witness_graph_drops`, `C14_witness_graph_sum`,
+   stated about the pre-repair definitions in `Model/C14Old.lean`).
 -/
 
 theorem processSection_covers (cfg : Config) (cnt : Counter) (s : Sec) :
@@ -224,23 +242,50 @@ theorem processSection_covers (cfg : Config) (cnt : Counter) (s : Sec) :
   split
   · simpa [mkChunk] using Covers.refl s.elems
   · have := C14_seq_partition cfg cnt s.elems
-    simpa [List.flatMap_map, Function.comp_def] using this
+    simpa [List.flatMap_map, Function.comp_def, mkChunk] using this
 
-/-- **Partition (graph), partial.**  When every non-title element after the first title names the
-most recent title as its `parent_heading` (`WellSectioned` — what `partition()` produces), the
-graph chunker's chunks contain every element's content exactly once and in order. -/
+theorem sections_covers (cfg : Config) (cnt : Counter) (els : List Elem) :
+    Covers (((sections els).flatMap (processSection cfg cnt)).flatMap (·.elements))
+      ((sections els).flatMap Sec.elems) := by
+  rw [List.flatMap_assoc]
+  exact covers_flatMap _ _ _ (fun s _ => processSection_covers cfg cnt s)
+
+/-- **Nothing is lost, nothing is duplicated (graph) — holds in full.**  For ALL inputs the chunks
+of `chunk_with_graph` cover a rearrangement of the input that keeps the preamble in place and
+gathers, after it, each title followed by the elements of its section: every element's content
+appears exactly once. -/
+theorem C14_graph_no_loss (cfg : Config) (cnt : Counter) (els : List Elem) :
+    ∃ els', els'.Perm els ∧ els' = preamble els ++ (sections els).flatMap Sec.elems ∧
+      Covers ((chunkWithGraph cfg cnt els).flatMap (·.elements)) els' := by
+  refine ⟨_, ?_, rfl, ?_⟩
+  · have h := (sections_perm els).append_left (preamble els)
+    rwa [preamble_append_after] at h
+  · unfold chunkWithGraph
+    rw [List.flatMap_append]
+    exact Covers.append (C14_seq_partition cfg cnt (preamble els)) (sections_covers cfg cnt els)
+
+example : (sections witnessDropInput).flatMap Sec.elems = afterPreamble witnessDropInput := by decide
+
+/-- **Partition (graph), partial.**  When no non-title element names a title that is not the most
+recent one (`NoStale`: it names the most recent title, or no earlier title, or nothing — in
+particular the `WellSectioned` lists `partition()` produces), the graph chunker's chunks contain
+every element's content exactly once and IN ORDER. -/
 theorem C14_graph_partition_partial (cfg : Config) (cnt : Counter) (els : List Elem)
-    (hw : WellSectioned els) :
+    (hw : NoStale els) :
     Covers ((chunkWithGraph cfg cnt els).flatMap (·.elements)) els := by
   unfold chunkWithGraph
   rw [List.flatMap_append]
   have h1 := C14_seq_partition cfg cnt (preamble els)
-  have h2 : Covers (((sections els).flatMap (processSection cfg cnt)).flatMap (·.elements))
-      (afterPreamble els) := by
-    rw [← sections_flatten els hw, List.flatMap_assoc]
-    exact covers_flatMap _ _ _ (fun s _ => processSection_covers cfg cnt s)
+  have h2 := sections_covers cfg cnt els
+  rw [sections_flatten els hw] at h2
   have := Covers.append h1 h2
   rwa [preamble_append_after] at this
+
+/-- … in particular for well-sectioned input. -/
+theorem C14_graph_partition_wellsectioned (cfg : Config) (cnt : Counter) (els : List Elem)
+    (hw : WellSectioned els) :
+    Covers ((chunkWithGraph cfg cnt els).flatMap (·.elements)) els :=
+  C14_graph_partition_partial cfg cnt els (wellSec_none_noStale els hw)
 
 example : WellSectioned
     [⟨.paragraph, .text ['p'], ⟨1, 0, none, [], none, false, false, false⟩⟩,
@@ -248,26 +293,32 @@ example : WellSectioned
      ⟨.paragraph, .text ['q'], ⟨3, 0, some ['H'], [], none, false, false, false⟩⟩] := by
   unfold WellSectioned; decide
 
-/-- **Budget (graph), partial.**  For a counter that is in fact additive across the element
-separator (whatever it declares), a chunk not flagged oversized fits the budget. -/
-theorem C14_graph_budget_partial (cfg : Config) (cnt : Counter) (els : List Elem)
-    (hadd : AdditiveNl cnt.count) :
+example : NoStale witnessDropInput ∧ ¬ WellSectioned witnessDropInput := by
+  unfold NoStale WellSectioned; decide
+
+/-- **Budget (graph) — holds in full** (same hypothesis as the sequential chunker: a counter that
+declares itself additive is additive across the element separator).  The whole-section chunk is
+approved on the measure of the text it emits. -/
+theorem C14_graph_budget (cfg : Config) (cnt : Counter) (els : List Elem)
+    (hadd : cnt.additive = true → AdditiveNl cnt.count) :
     ∀ c ∈ chunkWithGraph cfg cnt els, c.oversized = false → cnt.count c.text ≤ cfg.maxTokens := by
   intro c hc
   unfold chunkWithGraph at hc
   rcases List.mem_append.1 hc with h | h
-  · exact C14_seq_budget cfg cnt _ (fun _ => hadd) c h
+  · exact C14_seq_budget cfg cnt _ hadd c h
   · obtain ⟨s, _, hcs⟩ := List.mem_flatMap.1 h
     unfold processSection at hcs
     simp only at hcs
     split at hcs
     · rename_i hle
-      have : c = mkChunk cnt s.elems (titleHeading s.title) false := List.mem_singleton.1 hcs
+      have : c = mkChunk cnt s.elems (titleHeadingOf s.title) false := List.mem_singleton.1 hcs
       rw [this]; intro _
-      rw [Sec.elems, sum_counts_eq cnt.count hadd] at hle
-      simpa [Chunk.text, mkChunk, Sec.elems] using hle
+      simpa [Chunk.text, mkChunk] using hle
     · obtain ⟨c0, hc0, rfl⟩ := List.mem_map.1 hcs
-      exact C14_seq_budget cfg cnt _ (fun _ => hadd) c0 hc0
+      exact C14_seq_budget cfg cnt _ hadd c0 hc0
+
+/-- non-vacuity: a counter that is NOT additive (and says so) satisfies the hypothesis -/
+example : (⟨c3Count, false⟩ : Counter).additive = true → AdditiveNl c3Count := by intro h; cases h
 
 /-- **Token estimate (graph)** — holds in full. -/
 theorem C14_graph_token_estimate (cfg : Config) (cnt : Counter) (els : List Elem) :
@@ -280,7 +331,7 @@ theorem C14_graph_token_estimate (cfg : Config) (cnt : Counter) (els : List Elem
     unfold processSection at hcs
     simp only at hcs
     split at hcs
-    · have : c = mkChunk cnt s.elems (titleHeading s.title) false := List.mem_singleton.1 hcs
+    · have : c = mkChunk cnt s.elems (titleHeadingOf s.title) false := List.mem_singleton.1 hcs
       rw [this]; rfl
     · obtain ⟨c0, hc0, rfl⟩ := List.mem_map.1 hcs
       exact C14_seq_token_estimate cfg cnt _ c0 hc0
@@ -302,36 +353,31 @@ theorem C14_graph_heading (cfg : Config) (cnt : Counter) (els : List Elem) :
     unfold processSection at hcs
     simp only at hcs
     split at hcs
-    · have : c = mkChunk cnt s.elems (titleHeading s.title) false := List.mem_singleton.1 hcs
+    · have : c = mkChunk cnt s.elems (titleHeadingOf s.title) false := List.mem_singleton.1 hcs
       rw [this]; exact ⟨by simp [mkChunk, Sec.elems], rfl⟩
     · obtain ⟨c0, hc0, rfl⟩ := List.mem_map.1 hcs
       exact ⟨(C14_seq_heading cfg cnt _ c0 hc0).1, rfl⟩
 
-/-! ### kernel-checked witnesses: the full statements fail for `chunk_with_graph` -/
+/-! ### `ElementGraph::build`, literally (`Model/C14Graph.lean`) -/
 
-private def md0 (id : Nat) (ph : Option Str) : Meta := ⟨id, 0, ph, [], none, false, false, false⟩
-private def cfg100 : Config := ⟨100, true, true, false⟩
+/-- The incrementally filled `active_title_for_heading` answers "the most recent title so far
+with this text": inserting the titles in order and looking a text up finds the LAST inserted
+entry with that text. -/
+theorem C14_active_map_most_recent (titles : List (Str × Nat)) (k : Str) :
+    (titles.foldl (fun m p => TitleMap.insert m p.1 p.2) []).get k =
+      (titles.reverse.find? fun p => decide (p.1 = k)).map (·.2) := by
+  have : ∀ m : TitleMap, titles.foldl (fun m p => TitleMap.insert m p.1 p.2) m = titles.reverse ++ m := by
+    induction titles with
+    | nil => intro m; rfl
+    | cons p r ih => intro m; simp [List.foldl_cons, ih, TitleMap.insert]
+  rw [this []]; simp [TitleMap.get]
 
-/-- `[Title H1, P(H1), P(no heading), P("Gone")]`: the two paragraphs that belong to no section
-are dropped. -/
-def witnessDrop : List Elem :=
-  [⟨.title, .text ['H', '1'], md0 1 (some ['H', '1'])⟩,
-   ⟨.paragraph, .text ['o', 'n', 'e'], md0 2 (some ['H', '1'])⟩,
-   ⟨.paragraph, .text ['t', 'w', 'o'], md0 3 none⟩,
-   ⟨.paragraph, .text ['t', 'h', 'r', 'e', 'e'], md0 4 (some ['G', 'o', 'n', 'e'])⟩]
+example : (TitleMap.insert (TitleMap.insert [] ['N'] 0) ['N'] 2).get ['N'] = some 2 := by decide
 
-theorem C14_witness_graph_drops :
-    (chunkWithGraph cfg100 wordProxy witnessDrop).flatMap (·.elements) = witnessDrop.take 2 ∧
-    ¬ Covers ((chunkWithGraph cfg100 wordProxy witnessDrop).flatMap (·.elements)) witnessDrop := by
-  have h : (chunkWithGraph cfg100 wordProxy witnessDrop).flatMap (·.elements) = witnessDrop.take 2 := by
-    decide
-  refine ⟨h, fun hc => ?_⟩
-  have := hc.length_le
-  rw [h] at this
-  simp [witnessDrop] at this
+/-! ### kernel-checked witnesses -/
 
 /-- `[Title A, Title B, P(A), P(B)]`: children are gathered per title, so the paragraph of `A`
-is emitted before title `B` — input order is not preserved. -/
+is emitted before title `B` — input order is not preserved (C14-F2, open). -/
 def witnessOrder : List Elem :=
   [⟨.title, .text ['A'], md0 1 none⟩,
    ⟨.title, .text ['B'], md0 2 none⟩,
@@ -351,15 +397,46 @@ theorem C14_witness_graph_order :
   obtain ⟨o2, ho2, _⟩ := Covers.cons_unsplittable (by decide) hc1
   cases ho2
 
-/-- `[Title "abc", P "xyz"]`, counter `⌈chars/3⌉` (declares itself non-additive), budget 2: the
-section is approved by the SUM 1 + 1 ≤ 2 although the emitted text "abc\nxyz" costs 3. -/
+/-- REGRESSION (C14-F1, repaired): before the repair `[Title H1, P(H1), P(no heading), P("Gone")]`
+lost the two paragraphs that belong to no section; the repaired pass keeps them, in order. -/
+theorem C14_witness_graph_drops :
+    (chunkWithGraphOld cfg100 wordProxy witnessDropInput).flatMap (·.elements) = witnessDropInput.take 2 ∧
+    ¬ Covers ((chunkWithGraphOld cfg100 wordProxy witnessDropInput).flatMap (·.elements)) witnessDropInput ∧
+    (chunkWithGraph cfg100 wordProxy witnessDropInput).flatMap (·.elements) = witnessDropInput := by
+  have h : (chunkWithGraphOld cfg100 wordProxy witnessDropInput).flatMap (·.elements) =
+      witnessDropInput.take 2 := by decide
+  refine ⟨h, fun hc => ?_, by decide⟩
+  have := hc.length_le
+  rw [h] at this
+  simp [witnessDropInput] at this
+
+/-- REGRESSION (C14-F3, repaired): `[Title "abc", P "xyz"]`, counter `⌈chars/3⌉` (declares itself
+non-additive), budget 2: the SUM 1 + 1 ≤ 2 approved a chunk whose emitted text "abc\nxyz" costs 3;
+the repaired approval measures the emitted text and splits the section. -/
 def witnessSum : List Elem :=
   [⟨.title, .text ['a', 'b', 'c'], md0 1 none⟩,
    ⟨.paragraph, .text ['x', 'y', 'z'], md0 2 (some ['a', 'b', 'c'])⟩]
 
 theorem C14_witness_graph_sum :
-    ∃ c ∈ chunkWithGraph ⟨2, true, true, false⟩ ⟨c3Count, false⟩ witnessSum,
-      c.oversized = false ∧ c3Count c.text = 3 ∧ c.tokenEstimate = 3 := by
+    (∃ c ∈ chunkWithGraphOld ⟨2, true, true, false⟩ ⟨c3Count, false⟩ witnessSum,
+      c.oversized = false ∧ c3Count c.text = 3 ∧ c.tokenEstimate = 3) ∧
+    (∀ c ∈ chunkWithGraph ⟨2, true, true, false⟩ ⟨c3Count, false⟩ witnessSum,
+      c3Count c.text ≤ 2) := by
+  decide
+
+/-- REGRESSION (seeded): a second pass that consults `latest_title_for_heading` (the LAST title
+with that text in the whole document) attaches `P("N")` of the first "N" section to the later
+title "N": the paragraph is emitted after the second title. -/
+def witnessLatest : List Elem :=
+  [⟨.title, .text ['N'], md0 1 none⟩,
+   ⟨.paragraph, .text ['x'], md0 2 (some ['N'])⟩,
+   ⟨.title, .text ['N'], md0 3 none⟩]
+
+theorem C14_witness_latest_map :
+    (chunkWithGraphLit cfg100 wordProxy witnessLatest).flatMap (·.elements) = witnessLatest ∧
+    (chunkWithGraphOn cfg100 wordProxy witnessLatest (Graph.buildLatest witnessLatest)).flatMap (·.elements)
+      ≠ witnessLatest ∧
+    chunkWithGraphLit cfg100 wordProxy witnessLatest = chunkWithGraph cfg100 wordProxy witnessLatest := by
   decide
 
 /-- Observation about `chunk` (not a violation of the heading rule above): adjacent inline
